@@ -1008,12 +1008,12 @@ type c13Edge struct {
 }
 
 type c13Set struct {
-	Names   []string   `json:"names"`
-	Scalars []string   `json:"scalars"` // one scalar field declaration per type
-	Edges   []c13Edge  `json:"edges"`
-	Note    string     `json:"note,omitempty"`
-	order   [][]int    // relation order per type (edge indexes), read from the real schema
-	comps   [][]int    // undirected connected components
+	Names   []string  `json:"names"`
+	Scalars []string  `json:"scalars"` // one scalar field declaration per type
+	Edges   []c13Edge `json:"edges"`
+	Note    string    `json:"note,omitempty"`
+	order   [][]int   // relation order per type (edge indexes), read from the real schema
+	comps   [][]int   // undirected connected components
 }
 
 type c13SchemaParams struct {
@@ -1141,8 +1141,8 @@ func c13GenSet(rng *rand.Rand, aimed bool) *c13Set {
 // analyse fills order / comps from the real schema descriptions of node n and returns the shape flags.
 type c13Shape struct {
 	Cyclic, Nontrivial, Slip, SelfRef, OneSided bool
-	MaxLinks                                int
-	Canon                                   string
+	MaxLinks                                    int
+	Canon                                       string
 }
 
 func (s *c13Set) analyse(schemas []client.SchemaDescription) (c13Shape, error) {
